@@ -210,10 +210,10 @@ func (e *Engine) branch(st *State, cond *Term) (t, f bool) {
 // Returns false when the non-panicking continuation is infeasible.
 func (pc *pathCtx) panicIf(it *item, cond *Term, kind string, in ssa.Instruction) bool {
 	cond = it.st.Simp(cond)
+	pc.e.notePanicSite(kind, in)
 	if cond.IsFalse() {
 		return true
 	}
-	pc.e.notePanicSite(kind, in)
 	t, f := pc.e.branch(it.st, cond)
 	if t {
 		ps := it.st.Fork()
@@ -230,7 +230,13 @@ func (pc *pathCtx) panicIf(it *item, cond *Term, kind string, in ssa.Instruction
 // notePanicSite registers the implicit obligation "this instruction never panics" (it stays
 // "holds" unless a feasible panicking path reaches the harness top level).
 func (e *Engine) notePanicSite(kind string, in ssa.Instruction) {
+	if !e.panicObls {
+		return
+	}
 	fn := in.Parent()
+	if fn != nil && fn.Pkg == nil && fn.Origin() != nil {
+		fn = fn.Origin() // instantiation of a generic function
+	}
 	if fn == nil || fn.Pkg == nil || !e.ownPkgs[fn.Pkg.Pkg.Path()] || strings.HasPrefix(fn.Name(), "verif") || strings.HasPrefix(fn.Name(), "Verif") || strings.HasPrefix(fn.Name(), "nd") {
 		return
 	}
@@ -238,6 +244,9 @@ func (e *Engine) notePanicSite(kind string, in ssa.Instruction) {
 		return
 	}
 	site := siteOf(in)
+	if strings.Contains(site, "@zz_verif") {
+		return // harness code
+	}
 	id := kind + "@" + site
 	if e.panicSeen == nil {
 		e.panicSeen = map[string]bool{}
